@@ -32,6 +32,17 @@ pub fn passes(tier: &str) -> Vec<Pass> {
         mk("narrow-big/blob-overwritten", blob.clone(), Alpha::narrow(true), "blob_overwritten", if q { 3 } else { 5 }, 2, if q { 4.0 } else { 90.0 }, Probe::Lite),
         mk("narrow/leveled-l0=2", l2.clone(), Alpha::narrow(false), "", if q { 4 } else { 7 }, 3, if q { 4.0 } else { 150.0 }, Probe::Lite),
     ];
+    {
+        // journal rotation with the journaling limit at its minimum: straggler keyspaces are asked to rotate (RotateMemtable
+        // messages carrying a memtable id) while writes continue
+        let mut a = Alpha::empty();
+        a.ins = vec![(0, 0, 0), (0, 0, 1), (1, 0, 0)];
+        a.rem = vec![(0, 0)];
+        a.rotate = vec![0, 1];
+        a.major = vec![0];
+        a.jrot = true;
+        v.push(mk("2ks/small-journal-limit", Cfg { maxj: true, ..d.clone() }, a, "", if q { 4 } else { 6 }, 3, if q { 4.0 } else { 120.0 }, Probe::Lite));
+    }
     v.push(mk("narrow/fifo", fifo.clone(), Alpha::narrow(false), "", if q { 3 } else { 6 }, 3, if q { 2.0 } else { 90.0 }, Probe::Lite));
     if !q {
         v.push(mk("wide/l6_l0_mem", d.clone(), Alpha::wide(), "l6_l0_mem", 3, 2, 80.0, Probe::Full));
